@@ -36,6 +36,38 @@
 
 #if defined(USE_RSA) || defined(USE_ECC)
 
+/* Which kind of key makes signatures of this algorithm: PS_RSA, PS_ECC,
+   PS_ED25519, or PS_NOKEY for an identifier not tied to a key type here. */
+static uint8_t sigAlgKeyType(int32_t signatureAlgorithm)
+{
+    switch (signatureAlgorithm)
+    {
+    case OID_MD2_RSA_SIG:
+    case OID_MD5_RSA_SIG:
+    case OID_SHA1_RSA_SIG:
+    case OID_SHA1_RSA_SIG2:
+    case OID_SHA224_RSA_SIG:
+    case OID_SHA256_RSA_SIG:
+    case OID_SHA384_RSA_SIG:
+    case OID_SHA512_RSA_SIG:
+    case OID_RSASSA_PSS:
+    case OID_RSA_TLS_SIG_ALG:
+    case OID_RSA_PKCS15_SIG_ALG:
+        return PS_RSA;
+    case OID_SHA1_ECDSA_SIG:
+    case OID_SHA224_ECDSA_SIG:
+    case OID_SHA256_ECDSA_SIG:
+    case OID_SHA384_ECDSA_SIG:
+    case OID_SHA512_ECDSA_SIG:
+    case OID_ECDSA_TLS_SIG_ALG:
+        return PS_ECC;
+    case OID_ED25519_KEY_ALG:
+        return PS_ED25519;
+    default:
+        return PS_NOKEY;
+    }
+}
+
 psRes_t psVerifySig(psPool_t *pool,
     const unsigned char *msgIn,
     psSizeL_t msgInLen,
@@ -61,6 +93,19 @@ psRes_t psVerifySig(psPool_t *pool,
     }
 
     *verifyResult = PS_FALSE;
+
+    /* The algorithm identifier comes with the signature (certificate, CRL,
+       handshake message) and decides what msgIn is - a digest, or for
+       Ed25519 the message itself - while the key type decides which
+       primitive runs: they must name the same kind of key.  Otherwise e.g.
+       an "Ed25519" signature under an ECDSA key has its un-hashed message
+       cut to the curve size and verified as if it were a digest. */
+    if (sigAlgKeyType(signatureAlgorithm) != PS_NOKEY &&
+        sigAlgKeyType(signatureAlgorithm) != key->type)
+    {
+        psTraceCrypto("Signature algorithm does not fit the key type\n");
+        return PS_VERIFICATION_FAILED;
+    }
 
     switch (key->type)
     {
